@@ -1,5 +1,5 @@
 """C16 — parsers never crash: A1 panic / overflow / allocation / recursion obligations over the monomorphic MIR."""
-import re
+import re, os
 
 from lib import mir as M
 from lib import loops as LP
@@ -567,6 +567,56 @@ def budget_discharge(P, A, f, bi, gk, members):
                                     if target is not None or nxt is None:
                                         break
                                     cur = nxt
+                                if target is None and e.is_closure:
+                                    # the call sits in a closure (`.map(|&a| pool.get_loadable_nested(a, .., &mut budget))`): the budget is a
+                                    # captured variable - upvar k of the closure = operand k of the closure aggregate in the parent function
+                                    upk = None
+                                    for b2 in e.blocks:
+                                        for st in b2["s"]:
+                                            if st["k"] == "assign" and st["p"] == [cur] and st["rv"]["k"] in ("ref", "use", "copy_for_deref"):
+                                                rv = st["rv"]
+                                                rp = rv.get("p") or (rv.get("a") or {}).get("cp") or (rv.get("a") or {}).get("mv") or []
+                                                if rp and rp[0] == 1:
+                                                    fk = [x["f"] for x in rp if isinstance(x, dict) and "f" in x]
+                                                    if len(fk) == 1:
+                                                        upk = fk[0]
+                                    parent_key = re.sub(r"::\{closure#\d+\}$", "", e.key)
+                                    par = P.fns.get(parent_key)
+                                    if upk is not None and par is not None:
+                                        src_local = None
+                                        for b2 in par.blocks:
+                                            for st in b2["s"]:
+                                                if st["k"] == "assign" and st["rv"]["k"] == "agg" and st["rv"].get("closure") == e.key:
+                                                    ops = st["rv"].get("ops") or st["rv"].get("fields") or []
+                                                    if upk < len(ops):
+                                                        o2 = ops[upk]
+                                                        p2 = o2.get("mv") or o2.get("cp")
+                                                        if p2 and len(p2) == 1:
+                                                            src_local = p2[0]
+                                        cur2 = src_local
+                                        for _ in range(6):
+                                            if cur2 is None:
+                                                break
+                                            nxt2, tgt2 = None, None
+                                            for b2 in par.blocks:
+                                                for st in b2["s"]:
+                                                    if st["k"] == "assign" and st["p"] == [cur2] and st["rv"]["k"] == "ref":
+                                                        rp = st["rv"]["p"]
+                                                        if len(rp) == 1:
+                                                            tgt2 = rp[0]
+                                                        elif len(rp) == 2 and rp[1] == "*":
+                                                            nxt2 = rp[0]
+                                            if tgt2 is not None:
+                                                vals = []
+                                                for b2 in par.blocks:
+                                                    for st in b2["s"]:
+                                                        if st["k"] == "assign" and st["p"] == [tgt2]:
+                                                            c = st["rv"]["a"].get("c") if st["rv"]["k"] == "use" else None
+                                                            vals.append(c.get("v") if c and isinstance(c.get("v"), int) else None)
+                                                if vals and all(v is not None for v in vals):
+                                                    val = max(vals)
+                                                break
+                                            cur2 = nxt2
                                 if target is not None:
                                     vals = []
                                     for b2 in e.blocks:
